@@ -217,6 +217,7 @@ def run(tier, seed):
             parse_both(is_reg, json.dumps(d))
     if R:
         R.close()
+    fw.env_invariance(chk, "options")          # the same seeded cases under -O / -OO, warnings-as-errors, other TZ / locale, a private CA bundle
     return fw.finish(chk, ob, br, TRUSTED,
                      ["'equal to the original' is up to the documented defaults (empty transport list reads back as None; unset requireResidentKey / userVerification of a selection read back as False / preferred)"],
                      RULE, "coqc -Q . PW Properties/C16.v; thorough: coqchk -o")
